@@ -60,7 +60,27 @@ E = EnergyType.ELECTRIC
 G = EnergyType.GASOLINE
 
 # ------------------------------------------------------------------ concrete scenery
-BEV = ml.mock_bev()
+from nrel.hive.model.vehicle.mechatronics.powercurve.tabular_powercurve import TabularPowercurve as _TPC
+
+# the arena's electric vehicle uses hive's real TabularPowercurve class with a 4-point table
+# (the shipped 41-point table is the subject of the C04 curve harness; here it would only
+# multiply paths by the number of table segments per integration sub-step)
+_CURVE4 = _TPC(
+    data={
+        "name": "arena4",
+        "power_type": "electric",
+        "step_size_seconds": 60,
+        "power_curve": [
+            {"energy_kwh": 0.0, "power_kw": 1.0},
+            {"energy_kwh": 0.5, "power_kw": 1.0},
+            {"energy_kwh": 0.8, "power_kw": 0.5},
+            {"energy_kwh": 1.0, "power_kw": 0.1},
+        ],
+    },
+    nominal_max_charge_kw=50,
+    battery_capacity_kwh=50,
+)
+BEV = replace(ml.mock_bev(), powercurve=_CURVE4)
 ICE = ml.mock_ice()
 CHARGERS = {
     "LEVEL_1": ml.mock_l1_charger(),
@@ -331,17 +351,19 @@ def build_world(
         if st is None:
             return None
         k = sp.kind
-        if k == 3:
+        if k in (3, 4, 7):
+            # INV: the plug of a (dispatch-to-)station activity is installed there and fits the vehicle
+            # (ChargingStation.enter / DispatchStation.enter refuse anything else)
             if sp.plug == "NOPE":
-                return None  # ChargingStation.enter demands an installed plug
+                return None
             if sp.plug == "gas_pump" and not sp.ice:
                 return None
             if sp.plug != "gas_pump" and sp.ice:
                 return None
+        if k == 3:
             used[("s0", sp.plug)] = used[("s0", sp.plug)] + 1
         elif k == 4:
-            if sp.plug != "NOPE":
-                queued[("s0", sp.plug)] = queued[("s0", sp.plug)] + 1
+            queued[("s0", sp.plug)] = queued[("s0", sp.plug)] + 1
         elif k == 5:
             stalls_used = stalls_used + 1
         elif k == 6:
